@@ -105,6 +105,10 @@ func WithInterval(d time.Duration) PeriodicReaderOption {
 // exporter. That is left to the user to accomplish.
 func NewPeriodicReader(exporter Exporter, options ...PeriodicReaderOption) *PeriodicReader {
 	conf := newPeriodicReaderConfig(options)
+	if exporter == nil {
+		// Do not panic on nil exporter.
+		exporter = noopExporter{}
+	}
 	ctx, cancel := context.WithCancel(context.Background())
 	r := &PeriodicReader{
 		interval: conf.interval,
@@ -152,6 +156,23 @@ type PeriodicReader struct {
 
 // Compile time check the periodicReader implements Reader and is comparable.
 var _ = map[Reader]struct{}{&PeriodicReader{}: {}}
+
+// noopExporter is used by a PeriodicReader created with a nil Exporter.
+type noopExporter struct{}
+
+func (noopExporter) Temporality(k InstrumentKind) metricdata.Temporality {
+	return DefaultTemporalitySelector(k)
+}
+
+func (noopExporter) Aggregation(k InstrumentKind) Aggregation {
+	return DefaultAggregationSelector(k)
+}
+
+func (noopExporter) Export(context.Context, *metricdata.ResourceMetrics) error { return nil }
+
+func (noopExporter) ForceFlush(context.Context) error { return nil }
+
+func (noopExporter) Shutdown(context.Context) error { return nil }
 
 // newTicker allows testing override.
 var newTicker = time.NewTicker
